@@ -4,10 +4,14 @@ from vlib.scn import Scenario, h
 from checks import trees
 
 ID = "C20"
-LEAN_MODULES = ["Econf.Props.C20"]
+LEAN_MODULES = ["Econf.Props.C20", "Econf.Props.LeafKf"]
+# look-ups translated from the C source on every run (gen/c2lean.py): find_key leaves the memory the caller can see alone except *num,
+# and releases its copy of the group name on every path (lean/Econf/Props/LeafKf.lean)
+LEAF_FNS = ["find_key", "first_entry", "has_group"]
 THEOREMS = ["Econf.C20_readFile_out", "Econf.C20_readConfig_out", "Econf.C20_history_out", "Econf.C20_merge_out",
             "Econf.C20_readConfig_ledger", "Econf.C20_readDirs_ledger", "Econf.C20_readFile_ledger", "Econf.C20_history_ledger",
-            "Econf.C20_readConfig_fresh", "Econf.C20_readConfig_no_leak", "Econf.C20_own_refines"]
+            "Econf.C20_readConfig_fresh", "Econf.C20_readConfig_no_leak", "Econf.C20_own_refines",
+            "LeafKf.C_find_key"]
 SHRINK = False
 RULE = ("API call sequences of C11 and layered reads of C01/C06/C13/C16 with a failure injected at each consulted file in turn "
         "(callback rejection, foreign owner, malformed line, vanished file = dangling link, file removed by the callback while an earlier file is checked) and unknown options and option values at the edge of their syntax (empty lists, empty elements, empty prefix), through all read entry "
